@@ -24,6 +24,23 @@ func init() { Drivers["adapter"] = driveAdapter }
 
 const adStart = 5
 
+// One model unit is 2^64+1 base units, so that amounts do not fit 64 bits and an amount narrowed to its low 64 bits
+// (n instead of n*(2^64+1)) is told apart from the right one.
+var adUnit = new(big.Int).Add(new(big.Int).Lsh(big.NewInt(1), 64), big.NewInt(1))
+
+func adCoins(n int64) sdk.Coins {
+	return sdk.NewCoins(sdk.NewCoin(sdk.DefaultBondDenom, sdk.NewIntFromBigInt(new(big.Int).Mul(big.NewInt(n), adUnit))))
+}
+
+// adUnits converts base units to model units; -999 when the amount is not a whole number of units
+func adUnits(x sdk.Int) int64 {
+	q, r := new(big.Int).QuoRem(x.BigInt(), adUnit, new(big.Int))
+	if r.Sign() != 0 || !q.IsInt64() {
+		return -999
+	}
+	return q.Int64()
+}
+
 // proxyCode returns the init code of a tiny hand-assembled helper contract (there is no Solidity compiler here):
 //
 //	forward      - CALLs target with its own call data, reverts if the call fails
@@ -64,8 +81,8 @@ type adWorld struct {
 	C       *Chain
 	Val     string
 	Helpers map[string]map[string]common.Address // helper[mode][contract]
-	sink0   int64
-	sup0    int64
+	sink0   sdk.Int
+	sup0    sdk.Int
 }
 
 var (
@@ -75,7 +92,9 @@ var (
 
 func newAdWorld() *adWorld {
 	rich, eoa := NewAcct("ad/rich"), NewAcct("ad/eoa")
-	c := NewChain(ChainOpts{ChainID: "teleport_9000-10", Accts: []Acct{rich, eoa}, Balances: map[string]int64{eoa.Name: adStart}})
+	c := NewChain(ChainOpts{ChainID: "teleport_9000-10", Accts: []Acct{rich, eoa}, Balances: map[string]int64{eoa.Name: 0},
+		Bond:  "1000000000000000000000000", // far above what the actors can delegate: their votes never reach the quorum
+		Coins: map[string]sdk.Coins{eoa.Name: adCoins(adStart), rich.Name: adCoins(100)}})
 	w := &adWorld{C: c, Helpers: map[string]map[string]common.Address{}}
 	vals := c.App.StakingKeeper.GetAllValidators(c.Ctx())
 	w.Val = vals[0].OperatorAddress
@@ -94,24 +113,24 @@ func newAdWorld() *adWorld {
 	// the forwarding contracts act with their own coins
 	for _, name := range []string{"staking"} {
 		fwd := sdk.AccAddress(w.Helpers["forward"][name].Bytes())
-		if r := c.DeliverMsgs(rich, banktypes.NewMsgSend(rich.Acc, fwd, sdk.NewCoins(sdk.NewInt64Coin(sdk.DefaultBondDenom, adStart)))); !r.OK() {
+		if r := c.DeliverMsgs(rich, banktypes.NewMsgSend(rich.Acc, fwd, adCoins(adStart))); !r.OK() {
 			panic("fund forwarder: " + r.Log)
 		}
 	}
 	// an active proposal to vote on
-	msg, err := govtypes.NewMsgSubmitProposal(govtypes.NewTextProposal("t", "d"), sdk.NewCoins(sdk.NewInt64Coin(sdk.DefaultBondDenom, 1)), rich.Acc)
+	msg, err := govtypes.NewMsgSubmitProposal(govtypes.NewTextProposal("t", "d"), adCoins(1), rich.Acc)
 	must(err)
 	if r := c.DeliverMsgs(rich, msg); !r.OK() {
 		panic("submit proposal: " + r.Log)
 	}
-	w.sink0, w.sup0 = w.sink(), c.App.BankKeeper.GetSupply(c.Ctx(), sdk.DefaultBondDenom).Amount.Int64()
+	w.sink0, w.sup0 = w.sink(), c.App.BankKeeper.GetSupply(c.Ctx(), sdk.DefaultBondDenom).Amount
 	return w
 }
 
-func (w *adWorld) sink() int64 {
+func (w *adWorld) sink() sdk.Int {
 	c := w.C
-	return c.Bal(authtypes.NewModuleAddress(authtypes.FeeCollectorName), sdk.DefaultBondDenom).Int64() +
-		c.Bal(authtypes.NewModuleAddress(distrtypes.ModuleName), sdk.DefaultBondDenom).Int64()
+	return c.Bal(authtypes.NewModuleAddress(authtypes.FeeCollectorName), sdk.DefaultBondDenom).Add(
+		c.Bal(authtypes.NewModuleAddress(distrtypes.ModuleName), sdk.DefaultBondDenom))
 }
 
 // actor accounts of the specification: the EOA, and the forwarding contract in front of the staking contract
@@ -129,31 +148,32 @@ func (w *adWorld) project() M {
 	valAddr, _ := sdk.ValAddressFromBech32(w.Val)
 	st := M{}
 	for _, a := range []string{"eoa", "fwd"} {
-		var bal, del, unb, voted int64
+		var voted int64
+		bal, del, unb := sdk.ZeroInt(), sdk.ZeroInt(), sdk.ZeroInt()
 		for i, addr := range w.actorAddrs(a) {
 			if i == 0 {
-				bal = c.Bal(addr, sdk.DefaultBondDenom).Int64()
+				bal = c.Bal(addr, sdk.DefaultBondDenom)
 			}
 			if d, ok := c.App.StakingKeeper.GetDelegation(ctx, addr, valAddr); ok {
 				v, _ := c.App.StakingKeeper.GetValidator(ctx, valAddr)
-				del += v.TokensFromShares(d.Shares).TruncateInt64()
+				del = del.Add(v.TokensFromShares(d.Shares).TruncateInt())
 			}
 			if u, ok := c.App.StakingKeeper.GetUnbondingDelegation(ctx, addr, valAddr); ok {
 				for _, e := range u.Entries {
-					unb += e.Balance.Int64()
+					unb = unb.Add(e.Balance)
 				}
 			}
 			if v, ok := c.App.GovKeeper.GetVote(ctx, 1, addr); ok && len(v.Options) > 0 {
 				voted = int64(v.Options[0].Option)
 			}
 		}
-		st[a] = M{"bal": bal, "del": del, "unb": unb, "voted": voted}
+		st[a] = M{"bal": adUnits(bal), "del": adUnits(del), "unb": adUnits(unb), "voted": voted}
 	}
 	p, ok := c.App.GovKeeper.GetProposal(ctx, 1)
 	st["active"] = ok && p.Status == govtypes.StatusVotingPeriod
-	st["sink"] = w.sink() - w.sink0
-	st["burned"] = w.sink() - w.sink0
-	st["supply"] = c.App.BankKeeper.GetSupply(ctx, sdk.DefaultBondDenom).Amount.Int64() - w.sup0
+	st["sink"] = adUnits(w.sink().Sub(w.sink0))
+	st["burned"] = adUnits(w.sink().Sub(w.sink0))
+	st["supply"] = adUnits(c.App.BankKeeper.GetSupply(ctx, sdk.DefaultBondDenom).Amount.Sub(w.sup0))
 	return st
 }
 
@@ -178,7 +198,7 @@ func driveAdapter(t *testing.T, in, out string, seed int64) {
 				if str(st["val"]) != "valid" {
 					val = "teleportvaloper1unknownvalidatorxxxxxxxxxxxxxxxxxxxx"
 				}
-				amt := big.NewInt(num(st["amt"]))
+				amt := new(big.Int).Mul(big.NewInt(num(st["amt"])), adUnit)
 				var data []byte
 				contract, target := "staking", stakingAddr
 				var eventName string
